@@ -359,10 +359,12 @@ class JsonSchemaGenerator:
             data.update(dependentRequired=dependent_required)
         addition = options.addition
         if addition is not None:
-            if isinstance(addition, type):
-                data.update(additionalProperties=self.generate_for_type(addition))
-            else:
+            if isinstance(addition, bool):
                 data.update(additionalProperties=addition)
+            else:
+                # a type: a class, or an annotation like List[int] (parsed by the class parser into addition_type)
+                data.update(additionalProperties=self.generate_for_type(
+                    addition if isinstance(addition, type) else (parser.addition_type or addition)))
 
         annotations = parser.schema_annotations
         if annotations:
@@ -400,8 +402,9 @@ class JsonSchemaGenerator:
             data.update(positionalOnly=pos_params)
         addition = parser.options.addition
         if addition is not None:
-            if isinstance(addition, type):
-                data.update(additionalParameters=self.generate_for_type(addition))
-            else:
+            if isinstance(addition, bool):
                 data.update(additionalParameters=addition)
+            else:
+                data.update(additionalParameters=self.generate_for_type(
+                    addition if isinstance(addition, type) else (parser.addition_type or addition)))
         return data
